@@ -41,7 +41,7 @@ fn build_tokens(toks: &[&str]) -> Result<(TokenStream, Vec<(char, String)>), Str
         let tree = match k {
             "L:" => TokenTree::Literal(Literal::from_str(body).map_err(|_| format!("bad-arg literal {}", body))?),
             "I:" => {
-                if body.is_empty() || !body.chars().all(|c| c.is_ascii_alphanumeric() || c == '_') || body.as_bytes()[0].is_ascii_digit() || body == "_" {
+                if body.is_empty() || !body.chars().all(|c| c.is_ascii_alphanumeric() || c == '_') || body.as_bytes()[0].is_ascii_digit() {
                     return Err(format!("bad-arg ident {}", body));
                 }
                 TokenTree::Ident(Ident::new(body, Span::call_site()))
@@ -109,6 +109,9 @@ enum V {
 
 struct Interp {
     problems: Vec<String>,
+    /// the `_embedded` variants (what the `dashu` meta crate's macros call): constructor paths start with
+    /// `::dashu::integer` / `::dashu::float` / `::dashu::rational` instead of `::dashu_int` / …
+    embedded: bool,
 }
 
 type R<T> = Result<T, String>;
@@ -516,7 +519,20 @@ impl Interp {
         };
         let a: Vec<V> = a.iter().map(deref).collect();
         let base10 = generics.iter().any(|g| g.trim() == "10" || g.ends_with(" 10")) || owner == "DBig";
-        let ns_ok = |want: &str| segs.first().map(|s| s == want).unwrap_or(false);
+        let emb = self.embedded;
+        let ns_ok = |want: &str| {
+            if emb {
+                let sub = match want {
+                    "dashu_int" => "integer",
+                    "dashu_float" => "float",
+                    "dashu_ratio" => "rational",
+                    _ => "base",
+                };
+                segs.len() >= 2 && segs[0] == "dashu" && segs[1] == sub
+            } else {
+                segs.first().map(|s| s == want).unwrap_or(false)
+            }
+        };
         match (owner, f, a.as_slice()) {
             ("", "Some", [v]) => Ok(V::Opt(Some(Box::new(v.clone())))),
             ("UBig", "from_dword", [V::Num(n)]) if ns_ok("dashu_int") => Ok(V::U(UBig::from_dword(*n as DoubleWord), "const".into())),
@@ -651,6 +667,20 @@ fn concat(plain: &[(char, String)]) -> String {
 }
 
 fn rt_float(binary: bool, plain: &[(char, String)]) -> String {
+    // an exponent whose normalisation leaves `isize` makes `Repr::new` overflow (a panic in this build, a wrap-around
+    // without overflow checks; the float parser's own property, C08, records it): for this property the run-time parser
+    // gives no number there — `err`, as the model says; the macro itself must then be a compile error
+    let plain2: Vec<(char, String)> = plain.to_vec();
+    match std::panic::catch_unwind(move || rt_float_inner(binary, &plain2)) {
+        Ok(s) => s,
+        Err(_) => {
+            let _ = LAST_PANIC.with(|p| p.borrow_mut().take());
+            "err".into()
+        }
+    }
+}
+
+fn rt_float_inner(binary: bool, plain: &[(char, String)]) -> String {
     let text = concat(plain);
     if binary {
         // one `_` directly after the optional sign is macro-only syntax
@@ -723,18 +753,18 @@ fn rt_ratio(plain: &[(char, String)]) -> String {
 
 // ------------------------------------------------------------------------------------------ dispatch
 
-fn expand(kind: &str, static_: bool, ts: TokenStream) -> Option<TokenStream> {
+fn expand(kind: &str, static_: bool, embedded: bool, ts: TokenStream) -> Option<TokenStream> {
     let kind = kind.to_string();
     std::panic::catch_unwind(move || match kind.as_str() {
-        "mac.ubig" => parse::int::parse_integer(false, static_, false, ts),
-        "mac.ibig" => parse::int::parse_integer(true, static_, false, ts),
-        "mac.fbig" => parse::float::parse_binary_float(static_, false, ts),
-        "mac.dbig" => parse::float::parse_decimal_float(static_, false, ts),
+        "mac.ubig" => parse::int::parse_integer(false, static_, embedded, ts),
+        "mac.ibig" => parse::int::parse_integer(true, static_, embedded, ts),
+        "mac.fbig" => parse::float::parse_binary_float(static_, embedded, ts),
+        "mac.dbig" => parse::float::parse_decimal_float(static_, embedded, ts),
         _ => {
             if static_ {
-                parse::ratio::parse_static_ratio(false, ts)
+                parse::ratio::parse_static_ratio(embedded, ts)
             } else {
-                parse::ratio::parse_ratio(false, ts)
+                parse::ratio::parse_ratio(embedded, ts)
             }
         }
     })
@@ -769,9 +799,12 @@ pub fn dispatch(op: &str, args: &[&str]) -> Option<Res> {
         return None;
     }
     Some((|| -> Res {
-        let static_ = match arg(args, 0)? {
-            "plain" => false,
-            "static" => true,
+        // `eplain` / `estatic`: the `_embedded` entry points (macros of the `dashu` meta crate, /repo/src/lib.rs)
+        let (static_, embedded) = match arg(args, 0)? {
+            "plain" => (false, false),
+            "static" => (true, false),
+            "eplain" => (false, true),
+            "estatic" => (true, true),
             other => return Err(format!("bad-arg mode {}", other)),
         };
         let (ts, plain) = build_tokens(&args[1..])?;
@@ -782,12 +815,12 @@ pub fn dispatch(op: &str, args: &[&str]) -> Option<Res> {
             "mac.dbig" => rt_float(false, &plain),
             _ => rt_ratio(&plain),
         };
-        let out = match expand(op, static_, ts) {
+        let out = match expand(op, static_, embedded, ts) {
             None => return Err(format!("reject rt:{}", rt)),
             Some(o) => o,
         };
         let toks = flatten(out);
-        let mut it = Interp { problems: Vec::new() };
+        let mut it = Interp { problems: Vec::new(), embedded };
         let v = std::panic::catch_unwind(std::panic::AssertUnwindSafe(|| it.expr(&toks, &HashMap::new())));
         let v = match v {
             Ok(Ok(v)) => v,
